@@ -28,6 +28,7 @@ type TStep struct {
 	Kind  string `json:"kind"`  // client: start stop terminate disconnect malformed incomplete startNoPayload unknownType init ; upstream: event complete error disconnect
 	Sub   int    `json:"sub"`
 	Wait  bool   `json:"wait"`
+	N     int    `json:"n,omitempty"` // upstream burst: number of wide events sent back to back
 }
 
 // TeardownCase: subscriptions on ONE client connection, a history of client and upstream actions, and ordering
@@ -321,6 +322,24 @@ func checkC18(c *TeardownCase) (*ev.Failure, map[string]bool) {
 			} else if s.ws != nil {
 				s.ws.Send(map[string]interface{}{"type": "data", "id": s.ws.ID, "payload": map[string]interface{}{"data": val}})
 			}
+		case "upstream:burst":
+			// wide events back to back: the upstream reader decodes the next one while the listener still forwards the last
+			s := subs[i]
+			for k := 0; k < st.N; k++ {
+				val := map[string]interface{}{"humanAdded": map[string]interface{}{"id": "Human_1", "name": "ann"}, "tick": k}
+				for j := 0; j < 150; j++ {
+					val[fmt.Sprintf("w%d_%d", k%2, j)] = j
+				}
+				if s.up != nil {
+					select {
+					case <-s.up.Closed:
+					default:
+						s.up.Emit(&requests.Response{Data: val}, 300*time.Millisecond)
+					}
+				} else if s.ws != nil {
+					s.ws.Send(map[string]interface{}{"type": "data", "id": s.ws.ID, "payload": map[string]interface{}{"data": val}})
+				}
+			}
 		case "upstream:complete":
 			s := subs[i]
 			if s.up != nil {
@@ -492,7 +511,10 @@ func genTeardownCase(t *rapid.T) *TeardownCase {
 			}
 		} else {
 			s.Actor = "upstream"
-			s.Kind = rapid.SampledFrom([]string{"event", "event", "event", "complete", "error", "disconnect"}).Draw(t, "ukind")
+			s.Kind = rapid.SampledFrom([]string{"event", "event", "event", "burst", "complete", "error", "disconnect"}).Draw(t, "ukind")
+			if s.Kind == "burst" {
+				s.N = rapid.IntRange(5, 60).Draw(t, "burstn")
+			}
 		}
 		c.Steps = append(c.Steps, s)
 	}
